@@ -874,22 +874,30 @@ func shapes(thorough bool, rnd func(int) int) []Shape {
 	out := append([]Shape{}, quick...)
 	nets := []string{"mainnet", "goerli", "sepolia", "hoodi", "gnosis", "chiado"}
 	amountSets := [][]int{nil, {32}, {1, 31}, {16, 16}, {8, 8, 8, 8}, {1, 1, 30}, {32, 32}}
-	for n := 3; n <= 10; n++ {
-		ths := []int{0, 2, n}
-		if n > 3 {
-			ths = append(ths, n-1)
+	mk := func(n, th int) Shape {
+		sh := Shape{Nodes: n, Threshold: th, Validators: 1 + rnd(3), Network: nets[rnd(len(nets))], Amounts: amountSets[rnd(len(amountSets))], MultiAddr: rnd(2) == 0}
+		if rnd(5) == 0 {
+			sh.Compounding = true
+			sh.Amounts = [][]int{nil, {32, 100}, {2048}, {1, 31, 500}}[rnd(4)]
 		}
-		if n > 5 {
-			ths = append(ths, 2+rnd(n-2))
+		return sh
+	}
+	for n := 3; n <= 10; n++ {
+		ths := []int{0}
+		if n <= 6 {
+			for th := 2; th <= n; th++ { // every threshold the command accepts
+				ths = append(ths, th)
+			}
+		} else {
+			ths = append(ths, 2, n, n-1, 2+rnd(n-2))
 		}
 		for _, th := range ths {
-			sh := Shape{Nodes: n, Threshold: th, Validators: 1 + rnd(3), Network: nets[rnd(len(nets))], Amounts: amountSets[rnd(len(amountSets))], MultiAddr: rnd(2) == 0}
-			if rnd(5) == 0 {
-				sh.Compounding = true
-				sh.Amounts = [][]int{nil, {32, 100}, {2048}, {1, 31, 500}}[rnd(4)]
-			}
-			out = append(out, sh)
+			out = append(out, mk(n, th))
 		}
+	}
+	for len(out) < 60 {
+		n := 3 + rnd(8)
+		out = append(out, mk(n, []int{0, 2 + rnd(n-1)}[rnd(2)]))
 	}
 	return out
 }
